@@ -231,6 +231,64 @@ def check(ctx):
     r2.require_floor(3, "isolation facts")
     rules.append(r2)
 
+    # termination of hand-written loops: a loop of the crate's own code is driven by an iterator / queue over finite data (`next`, `pop`, ..), or
+    # counts (an exit test on a local that the body moves by +/-), or is one of the reviewed loops below.  `while !set.insert(name) { name = f(k) }`
+    # with a `k` that the body does not move has none of these: for the inputs that enter it, it never ends.
+    LOOP_REVIEWED = {
+        "SerdeParser::parse_rename": "`search_start = abs_pos + 6` strictly advances the search offset; the loop ends when find() answers None (dead helper, kept for its tests)",
+        "ProjectScanner::detect_project": "walks `current = parent` up a finite path until parent() is None",
+    }
+    from rulelib import loop_exits as _le
+    r4 = Rule("C15-LOOPS-progress", "termination",
+              "every natural loop of the crate's own reachable code is driven by an iterator/queue, has an exit test on a counter the body moves, or is a "
+              "reviewed single-site exemption",
+              "a loop with none of these does not terminate for the inputs that enter it: generation hangs instead of failing")
+    DRV = ("next", "pop", "pop_front", "pop_back", "next_back", "recv", "read_line", "read", "next_key", "next_element", "next_entry", "next_value")
+    for fid in sorted(reach):
+        f = P.fns.get(fid)
+        if f is None or "{promoted" in fid or "::_serde::" in fid or "::_::" in fid:
+            continue
+        for (h, body) in f._natural_loops():
+            if h not in f.reach_blocks:
+                continue
+            drv, exits = _le(f, (h, body), drivers=DRV)
+            if drv is not None:
+                r4.ok(None)
+                continue
+            key = short_path(re.sub(r"::\{closure#\d+\}", "", fid))
+            moved = set()
+            for b in body:
+                for st in f.blocks[b]["stmts"]:
+                    rv = st.get("rv") or {}
+                    if rv.get("k") == "bin" and re.match(r"(Add|Sub)", str(rv.get("op"))) and st.get("lhs"):
+                        moved.add(st["lhs"]["l"])
+            counted = False
+            for b in body:
+                t = f.blocks[b]["term"]
+                if t["k"] != "switch":
+                    continue
+                for (lab, succ) in f.succ_edges(b):
+                    if succ in body:
+                        continue
+                    try:
+                        o, _out = f.cond_struct(b, lab)
+                    except Exception:  # noqa
+                        continue
+                    if o[0] == "bin" and str(o[1]) in ("Lt", "Le", "Gt", "Ge", "Ne", "Eq"):
+                        txt = f.describe_origin(o, deep=3)
+                        if re.search(r"\b(Add|Sub)", txt):
+                            counted = True
+            if counted:
+                r4.ok("%s: counting loop" % key)
+            elif key in LOOP_REVIEWED:
+                r4.ok("%s: reviewed — %s" % (key, LOOP_REVIEWED[key]))
+            else:
+                r4.bad(V(r4.id, fid, "loop-without-progress:%s" % ";".join(sorted(e[2][:40] for e in exits))[:120],
+                         "%s contains a loop that no iterator/queue drives and whose exit test (%s) is on nothing the body counts up or down: if the test fails once "
+                         "with unchanged operands it fails for ever" % (key, "; ".join(e[2][:60] for e in exits) or "none"), f.file, f.blocks[h]["term"].get("line")))
+    r4.require_floor(40, "loops")
+    rules.append(r4)
+
     # embedded templates parse (supports the create_tera exemption)
     r3 = Rule("C15-templates-parse", "EX-support",
               "every embedded template is accepted by tera::Template::new (the parser the tool links)",
